@@ -243,6 +243,12 @@ class Evaluator:
             return self.binop("Sub", self.ev(args[0]), self.ev(args[1]))
         if tail == "wrapping_add":
             return self.binop("Add", self.ev(args[0]), self.ev(args[1]))
+        if tail in ("min", "max") and len(args) == 2:
+            a, b = self.ev(args[0]), self.ev(args[1])
+            if a.full() and b.full():
+                r = min(a.v, b.v) if tail == "min" else max(a.v, b.v)
+                return KB.const(r, max(a.w, b.w))
+            raise CannotEval("min/max of partially known values")
         if tail == "_pext_u64":
             a = self.ev(args[0])
             mk = self.ev(args[1])
